@@ -35,7 +35,7 @@ SPECS["C18"] = {
 
 SPECS["C10"] = {
     "explanation": "HighestPriority report vs. reference over arbitrary priorities/finish orders and arbitrary operation histories; "
-                   "rule execution order / fail-on-first-error over arbitrary priorities and failing flags; all through the exported engine API.",
+                   "rule execution order / fail-on-first-error over arbitrary priorities and failing flags; all through the exported engine API. Since the third session: the cascade under schedules with optional child events (report read at the instant the wait returns), rule names in any order. Line and column are asserted separately (the listed known finding covers the column only); literals incl. raw strings spanning lines as statement values; CRLF line comments.",
     "level_text": "bounded: for all priority assignments, failing flags, finish orders and operation histories within the stated sizes, "
                   "the solver finds no deviation from the reference (except listed known findings)",
     "level_note": "trusts go/ssa, gosym, z3; sizes bounded (N monitors, K finishes, L history steps, R rules); one goroutine",
@@ -75,7 +75,7 @@ SPECS["C10"] = {
 SPECS["C14"] = {
     "explanation": "The real stringValueRuntime.Eval (incl. the nested real parse+validate+eval of every group) is executed on a literal of N "
                    "symbolic bytes over {'{','}','a'} with raw/quoted symbolic; asserted: no panic, terminates, raw untouched, result equals a "
-                   "one-pass reference (which evaluates each own group of the literal once with the same real evaluator and never rescans).",
+                   "one-pass reference (which evaluates each own group of the literal once with the same real evaluator and never rescans). Since the third session: segment-level literals, a literal whose groups evaluate the same literal again (recursion), groups that fail at evaluation time (inline error marker).",
     "level_text": "bounded: for ALL literals up to the stated length over the alphabet the solver finds no panic, non-termination or deviation from the one-pass result",
     "level_note": "trusts go/ssa, gosym (string intrinsics Index/Replace/Sprintf modelled byte-exactly), z3; alphabet and length bounded; variable a holds '{{a}}'",
     "harnesses": [
@@ -114,7 +114,7 @@ _C06 = ["interpreter/common.go", "interpreter/c06.go"]
 SPECS["C06"] = {
     "explanation": "Every implicit Go panic site (nil dereference, index/slice bounds, integer division by zero, failed type assertion, unhashable map key, "
                    "comparison of uncomparable dynamic types, explicit panic/assert) reached while the real parser+interpreter evaluate operator, built-in and "
-                   "container-access programs over a symbolic value universe is an SMT obligation; full-width float64 operands.",
+                   "container-access programs over a symbolic value universe is an SMT obligation; full-width float64 operands. Since the third session: built-in arguments written as index access / map access / call result, containers that contain themselves handed to every consumer of values, every mutated program the parser accepts is evaluated, sink bodies failing with plain Go errors, value universe with the error-object kinds (Go []string trace).",
     "level_text": "bounded: for all operand kinds/values in the stated universe no panic is feasible on any path (except listed known findings)",
     "level_note": "trusts go/ssa, gosym, z3; universe: null,bool,number(any float64),1-byte string,lists,map,function; programs are templates",
     "harnesses": [
@@ -173,7 +173,7 @@ SPECS["C06"] = {
 
 SPECS["C09"] = {
     "explanation": "Real ThreadPool code (workers as goroutines, sync.Mutex/Cond modelled by the executor's scheduler) with every scheduling decision at a "
-                   "visible operation a symbolic variable bounded by a pre-emption budget; terminal states are checked for every task having run exactly once.",
+                   "visible operation a symbolic variable bounded by a pre-emption budget; terminal states are checked for every task having run exactly once. Since the third session: sequences of worker-count requests with busy workers and a backlog of queued tasks, tasks that wait for other queued tasks.",
     "level_text": "bounded: all schedules with <= P pre-emptions for W workers and M tasks; a terminal state with a queued task and all workers waiting is the lost wake-up",
     "level_note": "trusts go/ssa, gosym's model of sync.Mutex/Cond/WaitGroup/time.Sleep (fair yield), sequentially consistent memory, z3",
     "harnesses": [
@@ -295,7 +295,7 @@ SPECS["C01"] = {
 SPECS["C17"] = {
     "explanation": "Real FileImportLocator.Resolve with path/filepath (Join, Clean, Rel) interpreted from SSA on an import path of N symbolic bytes over "
                    "{a . /} (thorough: {a b . / space}) and 11 root forms (absolute, relative, with .. and trailing separators, the file system root, the empty string); ReadFile is replaced by a recorder; the opened path must have the root as a "
-                   "segment-wise prefix per an independent segment-stack normaliser.",
+                   "segment-wise prefix per an independent segment-stack normaliser. Eleven root forms incl. the empty string; the native replay plants sentinel files at the escaping path and next to every directory of the tree.",
     "level_text": "bounded: for ALL paths up to N bytes over the alphabet and all listed roots, no path outside the root is opened",
     "level_note": "trusts go/ssa, gosym, z3; ioutil.ReadFile stubbed (records path); os.PathSeparator '/' (Linux); symlinks outside ('lexically')",
     "harnesses": [
@@ -319,7 +319,7 @@ _C16 = ["interpreter/common.go", "interpreter/c16.go"]
 SPECS["C16"] = {
     "explanation": "Real HandleInput on command lines assembled from symbolic choices (12 command words x 0..2/3 arguments from 16 representative strings "
                    "or 2 arbitrary bytes) in four concretely constructed debugger states (fresh, finished run, thread suspended at top level, suspended "
-                   "inside a call); every implicit panic site is an obligation; afterwards the debugger lock must be free and status must answer.",
+                   "inside a call); every implicit panic site is an obligation; afterwards the debugger lock must be free and status must answer. Since the third session: every result is handed to the real encoding/json, program variables and error data range over 11 values of the ECAL value universe, a state suspended by break-on-error, expressions calling functions of the program.",
     "level_text": "bounded: all command lines in the stated vocabulary, 1 (quick) or 2 (thorough) commands in sequence, 4 states: no panic, no lock left held, status still answers",
     "level_note": "trusts go/ssa, gosym (sync model incl. RWMutex/Cond), z3; results are handed to the real encoding/json natively (concrete data on every path)",
     "harnesses": [
@@ -393,7 +393,7 @@ SPECS["C13"] = {
     "explanation": "Two real ParseWithRuntime calls run as goroutines (four goroutines with both lexers); pass 1 is a lockset (Eraser) discovery over all its "
                    "schedules that (a) reports unsynchronised concurrent access to package-level state of parser/interpreter - each report is confirmed by running the "
                    "same harness under Go's race detector - and (b) yields the racy sites; pass 2 pre-empts at those sites (scheduling decisions symbolic, budget P) and "
-                   "asserts that each parse returns exactly what it returns alone.",
+                   "asserts that each parse returns exactly what it returns alone. The undisturbed reference parses happen before or after the concurrent phase (symbolic), so that lazily initialised state is seen cold.",
     "level_text": "bounded: 6x6 program pairs, runtime provider attached or not, all schedules with <= P pre-emptions at discovered racy sites; round-robin at blocking switches",
     "level_note": "trusts go/ssa, gosym scheduler + lockset pass (candidates only; verdicts are assertion failures or race-detector confirmations), z3",
     "harnesses": [
@@ -411,7 +411,7 @@ _C12 = ["interpreter/common.go", "interpreter/c12.go"]
 SPECS["C12"] = {
     "explanation": "Real parser + mutexRuntime.Eval: T goroutines evaluate an ECAL function with a mutex block (name symbolic) inside a loop inside a function, a nested "
                    "block of the same name, and a symbolic exit kind (fall through, error, return, break, continue); thread ids are symbolic and pairwise distinct; "
-                   "Go probes count occupancy per name; every scheduling decision at a sync operation is a symbolic variable under a pre-emption budget.",
+                   "Go probes count occupancy per name; every scheduling decision at a sync operation is a symbolic variable under a pre-emption budget. Since the third session: gated hand-overs (A inside, B waiting, A leaves, a third entrant arrives while B is inside) and sink invocations on pool workers as the contending threads.",
     "level_text": "bounded: T threads x 5 exit kinds x 2 names x all distinct thread ids in 0..3 x all schedules with <= P pre-emptions: exclusion, re-entrancy, release on every exit (later entrant, deadlock verdict), no lost update",
     "level_note": "trusts go/ssa, gosym scheduler and sync model, z3; T<=2 (quick) / 3, P<=2, nesting depth 2",
     "harnesses": [
@@ -447,7 +447,7 @@ SPECS["C11"] = {
     "explanation": "Real provider, sinks declared through the real parser/interpreter, 2-worker processor; events with symbolic failing flags are added and processed "
                    "concurrently. Pass 1 (happens-before discovery) reports unsynchronised access to shared cells and package-level state (confirmed with the race "
                    "detector); pass 2 pre-empts at those sites with symbolic scheduling decisions and asserts per event: error recorded iff its flag is set, with its "
-                   "own type/detail/data, attributed to its event; marks show every invocation saw its own event and locals.",
+                   "own type/detail/data, attributed to its event; marks show every invocation saw its own event and locals. Since the third session: the report as ECAL code sees it (addEventAndWait), a declaration scope that defines the names the invocation scope defines (pre-emption at any sync operation), sinks on a wildcard pattern next to sinks on specific kinds.",
     "level_text": "bounded: 2 workers, 2-3 events, same sink or two sinks, all failing-flag assignments, all schedules with <= P pre-emptions at discovered racy sites",
     "level_note": "trusts go/ssa, gosym scheduler/HB pass, z3; pre-emptions only at sites pass 1 reports; round-robin at blocking switches",
     "harnesses": [
@@ -481,7 +481,7 @@ SPECS["C15"] = {
     "explanation": "Resumability: a program goroutine with a breakpoint and a driver goroutine polling Status() and issuing Continue; happens-before pass finds the "
                    "unsynchronised cells of the suspend/continue hand-shake, pass 2 pre-empts there with symbolic scheduling decisions; a quiescent state with the continue "
                    "executed and the thread still waiting is the lost wake-up. Transparency: four programs (assignments, function call, loop, try/except/finally) run with a "
-                   "symbolic breakpoint set and a symbolic sequence of resume/stepin/stepover/stepout commands; result, log and final variables must equal the undebugged run.",
+                   "symbolic breakpoint set and a symbolic sequence of resume/stepin/stepover/stepout commands; result, log and final variables must equal the undebugged run. Since the third session: suspension line sequences against an independent tracer, breakpoint command sequences over sources with names in a prefix relation against a table, a console goroutine issuing commands while a thread runs (data races confirmed with the race detector; dead-locks with sync.RWMutex modelled with writer preference).",
     "level_text": "bounded: resumability for 2 programs/breakpoints with <= P pre-emptions; transparency for 4 programs x all breakpoint subsets x all command sequences up to 6 (deterministic schedule)",
     "level_note": "trusts go/ssa, gosym scheduler/HB pass, encoding/json executed natively on concrete data, z3",
     "harnesses": [
@@ -535,7 +535,7 @@ SPECS["C08"] = {
     "explanation": "Real Parse -> PrettyPrint -> Parse -> PrettyPrint on (a) operator shapes chosen symbolically (15 binary x 15 binary operators, either side "
                    "parenthesised; 3 prefix operators over/under binary ones), (b) 31 statement templates nested in 4 block kinds, (c) string literals with N symbolic "
                    "body bytes over {a,\",',\\,{,},newline} in the four literal forms; asserted: printed text parses, trees equal up to positions/comments incl. raw-vs-"
-                   "interpolating kind, second print equals the first. text/template.Execute runs natively on the path's concrete data.",
+                   "interpolating kind, second print equals the first. text/template.Execute runs natively on the path's concrete data. Since the third session: a comment of 9 forms inserted at every token boundary of 12 statement kinds, and the real FormatFiles over an in-memory file system replaced at the os.OpenFile level (open flags modelled).",
     "level_text": "bounded: depth-2 operator nesting exhaustive over the operator table, statement templates x nestings, string bodies up to N bytes over the alphabet",
     "level_note": "trusts go/ssa, gosym, native text/template and strconv.Quote/Unquote on concretised data, z3",
     "harnesses": [
@@ -604,7 +604,7 @@ SPECS["C20"] = {
     "explanation": "The real marker scan of RunPackedBinary is executed on an in-memory executable: n symbolic filler bytes over {x,#,newline}, the real marker, "
                    "a 4-byte archive stub; os/file calls and runInterpreter are replaced by harness functions (the latter records the archive size it is handed). The "
                    "scanner's block size b1 is a package variable and is shrunk from 4096 to 8 (b2 keeps its value) so that two full periods of the buffer geometry fit "
-                   "into the explored lengths. Counterexamples are replayed with a real temp file, a real zip archive and the real interpreter. A second harness runs the real Pack (packFiles over a modelled project tree, real zip writer) and then the real RunPackedBinary incl. runInterpreter (real zip reader, import locator, parser, interpreter): the exit code is the sum of tags the entry file reads from every packed module through imports by relative path after comparing each module's string with its expected content.",
+                   "into the explored lengths. Counterexamples are replayed with a real temp file, a real zip archive and the real interpreter. A second harness runs the real Pack (packFiles over a modelled project tree, real zip writer) and then the real RunPackedBinary incl. runInterpreter (real zip reader, import locator, parser, interpreter): the exit code is the sum of tags the entry file reads from every packed module through imports by relative path after comparing each module's string with its expected content. Since the third session the tree harness runs on an in-memory file system replaced at the os.OpenFile level (open flags modelled): re-pack into an existing larger target, five spellings of the project directory.",
     "level_text": "bounded: all binary lengths 0..80 (> 2*(b1+b2)=72) at b1=8 (thorough also b1=16, 0..90) x all fillers over the 3-byte alphabet: the archive is found at the byte after the marker",
     "level_note": "trusts go/ssa, gosym, z3; function replacement for os/file/zip; the real 4096 geometry is covered only through the parametricity of the scan in b1",
     "harnesses": [
@@ -677,7 +677,7 @@ SPECS["C05"] = {
                    "(symbolic index incl. negative), string/number keyed maps (existing/new keys), dot and bracket access, nested paths, aliases; ten scoping templates "
                    "(nearest-definition assignment, let, block locals, closures, recursion, defaults, fresh locals, by-value/by-reference, lexical not dynamic scope); "
                    "add/del/concat/len against a slice model; objects with multiple inheritance, this, init with arguments and super constructors. Expected values "
-                   "are computed by direct references in the harness.",
+                   "are computed by direct references in the harness. Since the third session: lists against a model of independent lists over every backing-array fill level (concat returns a new list; aliases see writes), the same func expression evaluated twice in different scopes.",
     "level_text": "bounded: all selector assignments of the listed templates, values fully symbolic",
     "level_note": "trusts go/ssa, gosym (decimal round trip of small integer indices encoded digit-wise), z3 and the per-template references in the harness",
     "harnesses": [
